@@ -1,6 +1,6 @@
 //! C14 — sub-ontologies keep shortest leaf-root chains, induced links, phenotype links.
 
-use super::common::{build_path, expected_facts, PathSel};
+use super::common::{build_path, bulk_facts, expected_facts, PathSel};
 use crate::build::*;
 use crate::gen::{self, pick, GenCfg, NameMode};
 use crate::model::*;
@@ -235,12 +235,37 @@ impl Property for C14 {
         }
     }
     fn required_labels(&self, _tier: Tier) -> Vec<&'static str> {
-        vec!["nontrivial", "leaves>30", "leaf-outside-root-subtree", "duplicate-leaves", "leaf==root", "leaf-is-ancestor-of-leaf", "retained-modifier-term-with-record", "record-only-on-retained-modifier-root", "terms-pruned", "record-dropped"]
+        vec!["nontrivial", "leaves>30", "leaf-outside-root-subtree", "duplicate-leaves", "leaf==root", "leaf-is-ancestor-of-leaf", "retained-modifier-term-with-record", "record-only-on-retained-modifier-root", "terms-pruned", "record-dropped", "leaves>255"]
     }
     fn run_generated(&self, tier: Tier, seed: u64, n: u64, stats: &mut Stats) -> Option<(Value, Failure)> {
         run_typed(strategy(tier), seed, n, stats, check)
     }
     fn replay(&self, case: &Value, stats: &mut Stats) -> Result<CheckResult, String> {
+        if let Some(b) = case.get("big") {
+            // (terms, mult, records per kind, number of leaves): more than 255 leaves on a `bulk_facts` ontology
+            let v: (u32, u32, u32, u32) = serde_json::from_value(b.clone()).map_err(|e| e.to_string())?;
+            stats.cases += 1;
+            let facts = bulk_facts(v.0, v.1, v.2);
+            let ids: Vec<u32> = facts.terms.iter().map(|t| t.id).collect();
+            // leaves: a stride over the supply order (deepest first), the phenotype root as root
+            let leaves: Vec<u32> = (0..v.3 as usize).map(|i| ids[(i * 7) % ids.len()]).filter(|t| *t != 1).collect();
+            let m = Model::new(&facts);
+            let root = if leaves.iter().all(|l| *l == 118 || m.anc[m.i(*l)].contains(&118)) { 118 } else { 1 };
+            let c = Case { facts, root, leaves, path: PathSel::Bin(3) };
+            let r = check(&c, stats);
+            if r.is_ok() {
+                stats.label("leaves>255");
+            }
+            return Ok(r);
+        }
         replay_typed::<Case, _>(case, stats, check)
+    }
+    fn isolated_plans(&self, tier: Tier, seed: u64) -> Vec<Value> {
+        let mult = [7919u32, 104_729][(seed % 2) as usize];
+        let mut out = vec![json!({"big": (1500u32, mult, 40u32, 300u32)})];
+        if tier == Tier::Thorough {
+            out.push(json!({"big": (6000u32, mult, 300u32, 1200u32)}));
+        }
+        out
     }
 }
